@@ -287,7 +287,7 @@ func (r *Recorder) Persist(c any) []byte {
 	if err != nil {
 		b = []byte(fmt.Sprintf("%q", fmt.Sprintf("unmarshalable case: %v", err)))
 	}
-	wrapper := fmt.Sprintf(`{"property":%q,"test":%q,"case":%s}`, r.st.Property, r.st.Test, b)
+	wrapper := fmt.Sprintf(`{"property":%q,"test":%q,"unit":%q,"case":%s}`, r.st.Property, r.st.Test, os.Getenv("VERIF_UNIT"), b)
 	os.WriteFile(r.cur, []byte(wrapper), 0o644)
 	return b
 }
@@ -371,6 +371,7 @@ func (r *Recorder) writeFail(vi *Violation, caseJSON []byte) {
 	doc := map[string]any{
 		"property":  r.st.Property,
 		"test":      r.st.Test,
+		"unit":      os.Getenv("VERIF_UNIT"),
 		"signature": vi.Sig,
 		"detail":    vi.Detail,
 		"case":      json.RawMessage(caseJSON),
